@@ -160,6 +160,7 @@ type Checker struct {
 	maxPrint    int
 	replayDir   string
 	inflight    sync.Map // case id -> start time (watchdog)
+	stuck       int64    // confirmed deadlock / hang cases
 	progress    int64    // work units completed outside Case / Note (watchdog only)
 }
 
@@ -168,7 +169,8 @@ func (c *Checker) Tick() { atomic.AddInt64(&c.progress, 1) }
 
 // watchdog: a library call that never returns (a leaked semaphore slot, a lock that is never released, a lost
 // wake-up) would leave the check hanging until the wall-clock limit and so without a verdict. When no case has
-// completed for the stall limit (10 min quick / 30 min thorough; VERIF_STALL_S overrides) the oldest cases in flight
+// completed for the stall limit (10 min quick / 30 min thorough; VERIF_STALL_S overrides), or one case has been in
+// flight that long while the others go on, the oldest cases in flight
 // are reported as a violation of kind "hang", with the stacks of the goroutines inside the library, and the check
 // exits 1. The limit is two orders of magnitude above the slowest case on the unchanged tree.
 func (c *Checker) watchdog() {
@@ -180,14 +182,14 @@ func (c *Checker) watchdog() {
 		limit = time.Duration(v) * time.Second
 	}
 	last, lastChange := int64(-1), time.Now()
+	lastTick, lastTickChange := int64(-1), time.Now()
 	for {
 		time.Sleep(5 * time.Second)
+		if t := atomic.LoadInt64(&c.progress); t != lastTick {
+			lastTick, lastTickChange = t, time.Now()
+		}
 		if n := atomic.LoadInt64(&c.evals) + atomic.LoadInt64(&c.progress); n != last {
 			last, lastChange = n, time.Now()
-			continue
-		}
-		if time.Since(lastChange) < limit {
-			continue
 		}
 		var ids []string
 		c.inflight.Range(func(k, v any) bool {
@@ -196,6 +198,13 @@ func (c *Checker) watchdog() {
 			}
 			return true
 		})
+		// (a) nothing at all has completed for the limit, or (b) one case has been in flight for the limit while other
+		// cases still complete (a call that never returns in one worker; no long sweep reported progress meanwhile)
+		stalledAll := time.Since(lastChange) >= limit
+		stalledOne := len(ids) > 0 && time.Since(lastTickChange) >= limit
+		if !stalledAll && !stalledOne {
+			continue
+		}
 		sort.Strings(ids)
 		if len(ids) > 8 {
 			ids = ids[:8]
@@ -212,7 +221,7 @@ func (c *Checker) watchdog() {
 			}
 		}
 		info := CaseInfo{ID: "hang/" + strings.Join(ids, " | "), NonTrivial: true}
-		v := &Violation{Kind: "hang", Detail: fmt.Sprintf("no case has completed for %v; in flight since then: %v; goroutines inside the library: %s", limit, ids, strings.Join(keep, " ||| ")),
+		v := &Violation{Kind: "hang", Detail: fmt.Sprintf("a library call did not return: cases in flight for more than %v: %v; goroutines inside the library: %s", limit, ids, strings.Join(keep, " ||| ")),
 			Replay: map[string]any{"replay_kind": "hang", "cases": ids}}
 		c.Record(info, "hang", v)
 		fmt.Printf("SUMMARY property=%s tier=%s evaluations=%d aborted: a library call did not return\n", c.Prop, c.Tier, atomic.LoadInt64(&c.evals))
@@ -274,7 +283,11 @@ func (c *Checker) Case(info CaseInfo, run func() *Violation) {
 		// re-execute 4 more times with every other worker paused (no concurrent library calls)
 		c.excl.Lock()
 		var serial []*Violation
-		for i := 0; i < 4; i++ {
+		reruns := 4
+		if v.Kind == "deadlock" || v.Kind == "hang" {
+			reruns = 1 // every such verdict costs the full deadlock time-out; one confirmation is enough
+		}
+		for i := 0; i < reruns; i++ {
 			v2 := run()
 			if v2 != nil && strings.HasPrefix(v2.Kind, "ok") {
 				v2 = nil
@@ -309,6 +322,12 @@ func (c *Checker) Case(info CaseInfo, run func() *Violation) {
 		}
 	}
 	c.Record(info, kind, v)
+	if v != nil && (v.Kind == "deadlock" || v.Kind == "hang") && atomic.AddInt64(&c.stuck, 1) >= 3 {
+		// calls that never return: every further case would sit out the same time-outs and the check would end at the
+		// wall-clock limit without a verdict. Three confirmed cases are the verdict.
+		fmt.Printf("SUMMARY property=%s tier=%s evaluations=%d aborted: library calls do not return (3 confirmed cases)\n", c.Prop, c.Tier, atomic.LoadInt64(&c.evals))
+		os.Exit(1)
+	}
 }
 
 // Note registers a case that was evaluated outside Case() (counts as one evaluation).
